@@ -27,6 +27,18 @@ CLAIMED["C15"] = dict(
          "Dynamic growth of data segments is covered at port level by other checks only.",
     technique="Lean 4 proof (arithmetic lemmas + bookkeeping invariant by induction over op lists) + differential correspondence with pointer oracle",
     design="DESIGN.md §5 C15")
+CLAIMED["C19"] = dict(
+    level="proof",
+    text="Lean 4 theorems over an executable model of SemanticString (FileName, Path, FilePath, RestrictedFileName), ServiceName, NodeName and the named-concept "
+         "naming scheme (path_for / extract_name_from_file / _from_path): a byte string is accepted iff it satisfies the documented rules and then round-trips; an accepted "
+         "file name has no separator, NUL, control character, '.' or '..'; every edit keeps the value valid and errors change nothing; path_for adds exactly one component "
+         "under the path hint; name extraction inverts path_for; domains with different roots, or with prefixes neither of which extends the other, never attribute each "
+         "other's files — for all byte strings and all configurations. The unrestricted isolation claim is refuted by a proved counter-theorem (prefix extension, known "
+         "finding). Tied to /repo by an exhaustive (all strings of length <= 2/3 over 256 byte values) and random differential run against the real types.",
+    note="Trusted: Lean kernel + 3 standard axioms; hand-written model (tie = differential testing, exhaustive for short strings); Linux constants (separator '/', lengths 255); "
+         "which files exist in a directory is outside the model (isolation is decided per file name).",
+    technique="Lean 4 proof (decidable validity predicates, round-trip and isolation theorems for all byte strings) + exhaustive/random differential correspondence",
+    design="DESIGN.md §5 C19")
 NOT_YET = {}
 
 def main():
